@@ -93,7 +93,7 @@ def sanitize_variable_name(
 
     # Compute recognisable basename
     base_name = "".join([char if re.match(r"\w", char) else "_" for char in name])
-    if base_name[0].isdigit():
+    if not base_name or base_name[0].isdigit():
         base_name = "_" + base_name
 
     # Verify new name is not in env already, and if not add a random suffix.
